@@ -453,7 +453,8 @@ func (r *Rule) transformArg(arg types.MatchData, argIdx int, cache map[transform
 					return cached.arg, cached.errs
 				}
 				value = cached.arg
-				errs = cached.errs
+				// clip the slice: appending below must never write into the cached entry's backing array
+				errs = cached.errs[:len(cached.errs):len(cached.errs)]
 				startIdx = i + 1
 				break
 			}
